@@ -119,6 +119,7 @@ func newReqEnv(c *fw.Ctx, params traceroute.TracerouteParams, target netip.Addr,
 		r.peer = p
 		r.w.OnFilter = func(h *simnet.Handle, s packets.PacketFilterSpec) { p.OnFilter(h, s) }
 		r.w.OnReadStart = func(h *simnet.Handle) { p.OnReadStart(r.w, h) }
+		r.w.OnBeforeFilter = func(h *simnet.Handle, s packets.PacketFilterSpec) { p.OnBeforeFilter(r.w, h, s) }
 	}
 	r.w.OnEmit = r.onEmit
 	return r, nil
